@@ -158,9 +158,9 @@ CODEC_STREAM = dict(name="codec", quick=["-n", "100"], thorough=["-n", "3000", "
 CODEC_RULE = ("codec stream by case index: 50% well-formed entries/manifests (V in {0,1,2,3,large}, nil/empty/0-40 links incl. CIDv0 and identity CIDs, boundary lengths, non-UTF-8 payloads, extreme clock times), 10% link-key, 30% malformed (random bytes; truncated/flipped/deleted/inserted bytes of valid blocks; hand-built CBOR maps with each field absent/null/wrong type/bad hex/bad links, extra/duplicate/shuffled keys), 10% poisoned stored logs, plus the pinned vectors (labelled TEST); distinct = distinct generated inputs; non-trivial = not the empty/zero entry")
 PROPS["C08"] = dict(
     title="Entry encoding is canonical and decoding is its exact inverse",
-    streams=[CODEC_STREAM], diff_fields=r".*", spec_ids=["C08"],
+    streams=[CODEC_STREAM, core_stream()], diff_fields=r".*", diff_fields_by_stream={"core": r"(?!)", "codec": r".*"}, spec_ids=["C08"],
     technique="Lean 4: CBOR encoder/decoder pair for the entry and manifest schema with round-trip theorems by structural induction; byte-exact differential run against cbornode.WrapObject and read-back through the real store",
-    level_text="Kernel-checked: decodeEntry (cborEntry j) = j and the same for manifests (all lengths up to 2^64, RFC 7049 key order, tag-42 links), toPlain . toJsonable is the identity on every field for any payload bytes, write-then-read gives back the entry, re-encoding the decoded entry gives the same block (same CID), the block does not depend on the layout of additional data, and with a link key a same-key read restores every field. Tied to the code: the model's bytes equal the real block for every generated entry and manifest, field equality after read-back, CID equality after re-encode and across two processes; the pinned interoperability vectors are replayed as labelled tests.",
+    level_text="Kernel-checked: decodeEntry (cborEntry j) = j and the same for manifests (all lengths up to 2^64, RFC 7049 key order, tag-42 links), toPlain . toJsonable is the identity on every field for any payload bytes, write-then-read gives back the entry, re-encoding the decoded entry gives the same block (same CID), the block does not depend on the layout of additional data, and with a link key a same-key read restores every field. Tied to the code: the model's bytes equal the real block for every generated entry and manifest, field equality after read-back, CID equality after re-encode and across two processes; the pinned interoperability vectors are replayed as labelled tests; in the core stream (a quarter of the histories run under the link-encrypting codec) every entry object that comes back from the store through any loader must carry the links and clock first seen under its hash (readBackLinks).",
     level_note=CODEC_NOTE, design_ref="§8 C08", rule=CODEC_RULE)
 PROPS["C12"] = dict(
     title="Untrusted blocks and manifests cannot crash the process",
@@ -170,9 +170,9 @@ PROPS["C12"] = dict(
     level_note=CODEC_NOTE, design_ref="§8 C12", rule=CODEC_RULE)
 PROPS["C18"] = dict(
     title="With a link key, stored blocks never reveal the log's structure",
-    streams=[CODEC_STREAM], diff_fields=r".*", spec_ids=["C18"],
+    streams=[CODEC_STREAM, core_stream()], diff_fields=r".*", diff_fields_by_stream={"core": r"(?!)", "codec": r".*"}, spec_ids=["C18"],
     technique="Lean 4: stored view has empty link lists and no tag-42 item; recovery / no-key / other-key behaviour from the ideal secretbox laws; raw-byte scan of real blocks",
-    level_text="Kernel-checked: for an entry with at least one link under a link key the stored value has next = refs = [] and its CBOR contains no tag-42 item (tag 42 appears exactly for clear-text links); a same-key reader recovers identical lists, a reader without a key gets no links, a different key is an error, and verification after read gives the same verdict as at creation. Confidentiality of secretbox is assumed; on real blocks the harness searches the binary, base32 and base58 forms of every predecessor/reference CID in the raw bytes and checks Links() is empty, reads with same/no/other key, Verify and Join after read.",
+    level_text="Kernel-checked: for an entry with at least one link under a link key the stored value has next = refs = [] and its CBOR contains no tag-42 item (tag 42 appears exactly for clear-text links); a same-key reader recovers identical lists, a reader without a key gets no links, a different key is an error, and verification after read gives the same verdict as at creation. Confidentiality of secretbox is assumed; on real blocks the harness searches the binary, base32 and base58 forms of every predecessor/reference CID in the raw bytes and checks Links() is empty, reads with same/no/other key, Verify and Join after read; in the core stream a quarter of the histories (appends, joins, all loaders, appends on loaded replicas) run under a link key, and at the end no entry block of the store may carry links and every read-back entry has the lists it was created with.",
     level_note=CODEC_NOTE + " Caveat proved (v1_links_in_clear): a V=1 entry has no encrypted-links fields and keeps its links in clear; Append always writes V=2.", design_ref="§8 C18", rule=CODEC_RULE)
 
 CONC_NOTE = ("Trusted: Lean kernel; Go's sync.RWMutex semantics as modelled (a pending writer blocks new readers; over-approximated hand-off); critical sections as atomic steps — justified by rw_exclusion plus the lock discipline extracted from the Go AST on every run (Generated/Facts.lean, closed by decide); "
